@@ -3176,6 +3176,11 @@ class WBEMConnection:  # pylint: disable=too-many-instance-attributes
                 # paths as INSTANCENAME elements which do not contain namespace
                 # or host. We want to return instance paths with namespace, so
                 # we set it to the effective target namespace.
+                if instance.path is None:
+                    raise CIMXMLParseError(
+                        "Expecting CIMInstance object with instance path in "
+                        "result list, got instance without path",
+                        conn_id=self.conn_id)
                 instance.path.namespace = namespace
 
             return instances
